@@ -83,6 +83,28 @@ do bait_unused_fn() start\n    return 1\nend\n\
 do bait_ret() start\n    return 1\n    shout(99)\nend\n\
 shout(bait_ret())\n";
 
+/// A small ordinary program appended after the sized part of every instance: its values depend on
+/// lexical binding of calls (nested calls, nested definitions, a block-local function with the name
+/// of a top-level one that is dynamically but not lexically in scope), captures and recursion.
+const KERNEL: &str = "do k_rate() start\n    return 1\nend\n\
+do k_pick(a, b) start\n    return a add b\nend\n\
+do k_price(n) start\n    return k_pick(k_pick(n times k_rate(), 0), k_pick(0, k_pick(0, 0)))\nend\n\
+do k_outer(a) start\n    do k_inner(b) start\n        do k_deep(c) start\n            return c add a\n        end\n        return k_deep(b) add a\n    end\n    return k_inner(k_inner(a))\nend\n\
+do k_fact(n) start\n    if to say (n small pass 2) start\n        return 1\n    end\n    return n times k_fact(n minus 1)\nend\n\
+make k_total get k_price(10)\n\
+start\n    do k_rate() start\n        return 100\n    end\n    k_total get k_total add k_price(10)\n    shout(k_total)\n    shout(k_rate())\n\
+    start\n        do k_pick(a, b) start\n            return 7\n        end\n        shout(k_price(3))\n        shout(k_pick(1, 2))\n    end\nend\n\
+shout(k_outer(2))\nshout(k_fact(5))\n";
+
+const KERNEL_EXPECT: [f64; 6] = [20.0, 100.0, 3.0, 7.0, 10.0, 120.0];
+
+fn kernel_counts() -> Counts {
+    // 9 functions; locals: a b | n | a | b | c | n | k_total | a b; scopes: 2 per function + 2 bare
+    // blocks + 1 if-block; statements: 9 defs, 10 returns, 1 if, 1 make, 2 blocks, 1 assignment, 6 shouts;
+    // calls: 5 in k_price, 2 in k_outer, 1 in k_inner, 1 in k_fact, 7 at script level / in blocks
+    Counts { functions: 9, locals: 10, scopes: 21, statements: 30, calls: 16 }
+}
+
 fn bait_counts() -> Counts {
     // root + 2 functions; 2 locals; scopes: root block + 2 x (parameter scope + body block);
     // statements: 4 + def + return + def + return + shout + shout
@@ -140,15 +162,15 @@ impl Family {
     fn hint(self) -> (u64, u64, u64) {
         match self {
             // (hint, lo, hi)
-            Family::Functions => (4_091, 1, 20_000),
-            Family::Locals => (131_071, 1_000, 140_000),
-            Family::Scopes => (131_067, 1_000, 140_000),
-            Family::Statements => (262_133, 1_000, 270_000),
-            Family::Calls => (262_144, 1_000, 270_000),
-            Family::SummaryEvents => (4_091, 1, 20_000),
-            Family::CfgBlocks => (131_052, 1_000, 262_000),
+            Family::Functions => (4_072, 1, 20_000),
+            Family::Locals => (131_061, 1_000, 140_000),
+            Family::Scopes => (131_046, 1_000, 140_000),
+            Family::Statements => (262_103, 1_000, 270_000),
+            Family::Calls => (262_128, 1_000, 270_000),
+            Family::SummaryEvents => (4_072, 1, 20_000),
+            Family::CfgBlocks => (131_031, 1_000, 262_000),
             Family::BlocksInOneFunction => (21_845, 100, 70_000),
-            Family::LivenessEvents => (33_551, 100, 200_000),
+            Family::LivenessEvents => (33_521, 100, 200_000),
         }
     }
 
@@ -271,6 +293,14 @@ impl Family {
                 c.statements += 1 + n;
             }
         }
+        s.push_str(KERNEL);
+        let k = kernel_counts();
+        c.functions += k.functions;
+        c.locals += k.locals;
+        c.scopes += k.scopes;
+        c.statements += k.statements;
+        c.calls += k.calls;
+        expect.extend_from_slice(&KERNEL_EXPECT);
         s.push_str("shout(42)\n");
         c.statements += 1;
         expect.push(42.0);
@@ -319,13 +349,22 @@ pub fn probe(family: Family, n: u64) -> Result<Probe, (String, String)> {
     let iso = crate::isolate::run(
         crate::isolate::Opts { timeout: Duration::from_secs(400), keep_stdio: false },
         |out| {
-            for o in crate::pipeline::run_source_shared(src, &modes) {
+            let (obs, measures) = crate::pipeline::run_source_shared_measured(src, &modes, true);
+            for o in obs {
                 out.frame(&o.encode());
             }
+            let mut m = Vec::new();
+            for v in measures.unwrap_or([u64::MAX; 11]) {
+                m.extend_from_slice(&v.to_le_bytes());
+            }
+            out.frame(&m);
         },
     );
-    let decoded: Vec<Obs> = iso.frames.iter().filter_map(|f| Obs::decode(f)).collect();
-    if !iso.clean() || decoded.len() != 2 {
+    let decoded: Vec<Obs> = iso.frames.iter().take(2).filter_map(|f| Obs::decode(f)).collect();
+    let measures: Option<Vec<u64>> = iso.frames.get(2).filter(|f| f.len() == 88).map(|f| {
+        f.chunks_exact(8).map(|c| u64::from_le_bytes(c.try_into().unwrap())).collect()
+    });
+    if !iso.clean() || decoded.len() != 2 || measures.is_none() {
         let c = iso.crash_kind().unwrap_or_else(|| "missing result".into());
         if crate::progs::is_arena_exhaustion(&c) || c == "timeout" {
             return Err(("inconclusive".into(), c));
@@ -355,6 +394,46 @@ pub fn probe(family: Family, n: u64) -> Result<Probe, (String, String)> {
     let limit = parse_limit(with_plan);
     let warnings = with_plan.warnings();
     let predicted = inst.counts.first_exceeded();
+    // The limited quantities as the public counting API measures them: the directly countable ones
+    // must be our own counts, and the staged comparison against the default caps (first exceeded
+    // limit in the documented order) must be what the warning says - no earlier, no later.
+    let measures = measures.unwrap();
+    for (i, own) in [
+        (0usize, inst.counts.functions),
+        (1, inst.counts.locals),
+        (2, inst.counts.scopes),
+        (3, inst.counts.statements),
+        (8, inst.counts.calls),
+    ] {
+        if measures[i] != own {
+            return Err((
+                format!("count-differs|{}", LIMITS[i].0),
+                format!("family {name}, size {n}: the program has {own} {} by construction, the analysis facts say {}", LIMITS[i].0, measures[i]),
+            ));
+        }
+    }
+    let staged = LIMITS.iter().zip(&measures).find(|((_, l), v)| **v > *l).map(|((m, _), v)| (*m, *v));
+    match (&limit, staged) {
+        (None, Some((m, v))) => {
+            return Err((
+                format!("limit-not-enforced|{m}"),
+                format!("family {name}, size {n}: {m} = {v} exceeds the default cap {} but there is no resource-limit warning", limit_of(m)),
+            ));
+        }
+        (Some((metric, observed, _)), None) => {
+            return Err((
+                format!("limit-enforced-below-cap|{metric}"),
+                format!("family {name}, size {n}: resource-limit warning for {metric} (observed {observed}) although no measured quantity exceeds its default cap"),
+            ));
+        }
+        (Some((metric, observed, _)), Some((m, v))) if metric != m || *observed != v => {
+            return Err((
+                format!("wrong-limit-reported|{m}|{metric}"),
+                format!("family {name}, size {n}: the first exceeded limit in the documented order is {m} = {v}, the warning names {metric} = {observed}"),
+            ));
+        }
+        _ => {}
+    }
     match &limit {
         Some((metric, observed, lim)) => {
             if warnings.len() != 1 {
